@@ -8,12 +8,16 @@ import (
 	"errors"
 	"slices"
 	"strconv"
+	"strings"
 
 	"github.com/jamf/regatta/regattapb"
 	serrors "github.com/jamf/regatta/storage/errors"
 	"google.golang.org/grpc/codes"
 	"google.golang.org/grpc/status"
 )
+
+// maxTableNameLen is the maximum length of a table name accepted by the API.
+const maxTableNameLen = 200
 
 type TablesServer struct {
 	regattapb.UnimplementedTablesServer
@@ -24,6 +28,10 @@ type TablesServer struct {
 func (t *TablesServer) Create(ctx context.Context, req *regattapb.CreateTableRequest) (*regattapb.CreateTableResponse, error) {
 	if len(req.Name) == 0 {
 		return nil, status.Errorf(codes.InvalidArgument, "name must be set")
+	}
+	// The name becomes part of the table data directory name.
+	if len(req.Name) > maxTableNameLen || strings.ContainsRune(req.Name, 0) {
+		return nil, status.Errorf(codes.InvalidArgument, "name must be at most %d bytes long and must not contain a NUL byte", maxTableNameLen)
 	}
 	table, err := t.Tables.CreateTable(req.Name)
 	if err != nil {
